@@ -393,6 +393,70 @@ def _constv(F, e):
     return None
 
 
+def r03_11(chk, P):
+    chk.rule('R03.11', 'recursion in vorbisfile.c is bounded by a constant, not by the file: for every function of vorbisfile.c that can '
+             'call itself (directly or through other functions of the file), every recursive call either passes a constant for a '
+             'parameter whose truth the call is control-dependent on -- `if(flag) f(vf,0)`: the inner activation cannot recurse '
+             'again -- or the function is reported: its stack depth grows with a quantity read from the stream (one frame per '
+             'logical stream of a chained file), and a file with enough links overflows the stack')
+    fns = {P.key(F): F for F in P.functions() if F.file.endswith('vorbisfile.c')}
+    n = 0
+    for k, F in sorted(fns.items()):
+        reach = P.reachable([t for c in F.calls() for t in P.call_targets(F, c) if t in fns])
+        if k not in reach:
+            continue
+        # direct recursive calls
+        rec = [c for c in F.calls() if k in P.call_targets(F, c)]
+        bounded = bool(rec)
+        # K4: the state at each recursive call; the inner activation starts with the parameters bound to the argument values.
+        # If a condition the recursive call is control-dependent on is infeasible in that state, the inner activation cannot
+        # reach the call again: depth 1
+        import absint
+        at = {}
+
+        def obs(A, env, e, v, at=at):
+            if e in rec and A.final:
+                at.setdefault(e, []).append((env.copy(), [A.peek(env, a) for a in A.ex[e]['c']]))
+        A = absint.Analyzer(P, F)
+        A.observers.append(obs)
+        A.run()
+        for c in rec:
+            conds = [(cc, pol) for cc, pol in common.controlling_conditions(F, c)
+                     if all(F.ex[q]['k'] != 'ref' or F.ex[q]['decl'].get('kind') != 'var' for q in F.walk(cc))]
+            ok = bool(at.get(c)) and bool(conds)
+            for (env, avs) in at.get(c, []):
+                e2 = env.copy()
+                for i_, p_ in enumerate(F.params):
+                    if i_ < len(avs) and isinstance(avs[i_], absint.V) and absint.int_type_range(p_.get('t', '')):
+                        e2[f'v{p_["id"]}'] = avs[i_]
+                stopped = False
+                for cc, pol in conds:
+                    try:
+                        if A.refine(e2.copy(), cc, pol) is None:
+                            stopped = True
+                    except Exception:
+                        pass
+                    # `if(p >= X) f(.., X-c)`: the argument is below the bound the guard tests (same expression X, c > 0)
+                    cn = F.ex[F.strip_casts(cc)]
+                    if pol and cn['k'] == 'bin' and cn['op'] in ('>=', '>'):
+                        pl = F.ex[F.strip_casts(cn['c'][0])]
+                        if pl['k'] == 'ref' and pl['decl'].get('kind') == 'param':
+                            pi_ = [i_ for i_, p_ in enumerate(F.params) if p_['id'] == pl['decl'].get('id')]
+                            if pi_ and pi_[0] < len(F.ex[c]['c']):
+                                an = F.ex[F.strip_casts(F.ex[c]['c'][pi_[0]])]
+                                if an['k'] == 'bin' and an['op'] == '-' and (common.const_val(F, an['c'][1]) or 0) > 0 and \
+                                        F.s(F.strip_casts(an['c'][0])) == F.s(F.strip_casts(cn['c'][1])):
+                                    stopped = True
+                ok = ok and stopped
+            bounded = bounded and ok
+        n += 1
+        chk.ob('R03.11', F.name, 'recursion-depth-constant', bounded, F.where(rec[0]) if rec else F.where(),
+               f'{len(rec)} recursive call(s), each with a constant that switches the recursion off in the callee' if bounded else
+               'the function calls itself with arguments computed from the file (one activation per link of a chained stream): the '
+               'stack depth is chosen by the input')
+    return n
+
+
 def run(chk, P):
     r03_2(chk, P)
     chk.floor('R03.2', 1)
@@ -413,6 +477,8 @@ def run(chk, P):
     from rules import c09
     c09.r09_11(common.Proxy(chk, 'R03.10'), P, rule='R03.10')
     chk.floor('R03.10', 5)
+    r03_11(chk, P)
+    chk.floor('R03.11', 1)
     r03_3(chk, P)
     chk.floor('R03.3', 10)
     chk.rule('R03.4', 'failed opens store NULL into vf->datasource before ov_clear on every path; the close callback has one '
